@@ -195,6 +195,88 @@ func rfLeanStr(s string) string {
 	return "\"" + strings.ReplaceAll(strings.ReplaceAll(s, "\\", "\\\\"), "\"", "\\\"") + "\""
 }
 
+// rfMethodDecl finds a method by receiver type name and method name.
+func rfMethodDecl(p *packages.Package, recv, name string) *ast.FuncDecl {
+	for _, f := range p.Syntax {
+		for _, d := range f.Decls {
+			fd, ok := d.(*ast.FuncDecl)
+			if !ok || fd.Recv == nil || fd.Name.Name != name || fd.Body == nil || len(fd.Recv.List) != 1 {
+				continue
+			}
+			t := fd.Recv.List[0].Type
+			if st, ok := t.(*ast.StarExpr); ok {
+				t = st.X
+			}
+			if id, ok := t.(*ast.Ident); ok && id.Name == recv {
+				return fd
+			}
+		}
+	}
+	fatal("%s: no method %s.%s", p.PkgPath, recv, name)
+	return nil
+}
+
+// rfRangeGuard reads `return u >= lo && u <= hi` (the body of UID.IsValid): both bounds, evaluated by the
+// type checker; ok=false if the body has another shape.
+func rfRangeGuard(p *packages.Package, fd *ast.FuncDecl) (lo, hi int64, ok bool) {
+	if len(fd.Body.List) != 1 {
+		return
+	}
+	ret, isRet := fd.Body.List[0].(*ast.ReturnStmt)
+	if !isRet || len(ret.Results) != 1 {
+		return
+	}
+	and, isBin := ret.Results[0].(*ast.BinaryExpr)
+	if !isBin || and.Op != token.LAND {
+		return
+	}
+	l, okl := and.X.(*ast.BinaryExpr)
+	r, okr := and.Y.(*ast.BinaryExpr)
+	if !okl || !okr || l.Op != token.GEQ || r.Op != token.LEQ {
+		return
+	}
+	val := func(e ast.Expr) (int64, bool) {
+		tv, has := p.TypesInfo.Types[e]
+		if !has || tv.Value == nil {
+			return 0, false
+		}
+		return constant.Int64Val(constant.ToInt(tv.Value))
+	}
+	var ok1, ok2 bool
+	lo, ok1 = val(l.Y)
+	hi, ok2 = val(r.Y)
+	return lo, hi, ok1 && ok2
+}
+
+// rfStartsWithUidValid: the first statement of the function is `if !uid.IsValid() { return ... }`.
+func rfStartsWithUidValid(p *packages.Package, fd *ast.FuncDecl) bool {
+	if len(fd.Body.List) == 0 {
+		return false
+	}
+	is, ok := fd.Body.List[0].(*ast.IfStmt)
+	if !ok || is.Init != nil {
+		return false
+	}
+	return rfExprText(p, is.Cond) == "!uid.IsValid()"
+}
+
+// rfAlignedField: unsafe.Offsetof of a top-level field (what the seek arithmetic uses) and its packed length.
+func rfAlignedField(p *packages.Package, st *types.Struct, fname string) (off, ln int64) {
+	var fields []*types.Var
+	idx := -1
+	for i := 0; i < st.NumFields(); i++ {
+		fields = append(fields, st.Field(i))
+		if st.Field(i).Name() == fname {
+			idx = i
+		}
+	}
+	if idx < 0 {
+		fatal("no field %s", fname)
+	}
+	offs := p.TypesSizes.Offsetsof(fields)
+	return offs[idx], rfPackedSize(fields[idx].Type())
+}
+
 func rfBool(b bool) string {
 	if b {
 		return "true"
@@ -259,6 +341,28 @@ func init() {
 		lf.raw("def deleteConfirmExpr : String := " + rfLeanStr(guard) + "\n")
 		lf.raw("def deleteConfirmsArticleID : Bool := " + rfBool(guard == "articleID == articleSummary.ArticleID") + "\n")
 		lf.raw("def deleteConfirmsCreateTimeOnly : Bool := " + rfBool(guard != "articleID == articleSummary.ArticleID" && strings.Contains(strings.ToLower(guard), "createtime") && !strings.Contains(guard, "ArticleID")) + "\n")
+		lf.raw("\n/-! the .PASSWDS accessors of cmbbs: the uid guard and the field offsets they seek to -/\n")
+		lf.nat("MAX_USERS", constInt(pt, "MAX_USERS"))
+		lo, hi, okR := rfRangeGuard(pt, rfMethodDecl(pt, "UID", "IsValid"))
+		lf.raw("/-- UID.IsValid is `u >= uidLo && u <= uidHi` -/\n")
+		lf.raw("def uidValidIsRange : Bool := " + rfBool(okR) + "\n")
+		lf.nat("uidLo", lo)
+		lf.nat("uidHi", hi)
+		pcb := l.load("cmbbs")
+		all := true
+		for _, fn := range []string{"PasswdQuery", "PasswdQueryPasswd", "PasswdQueryUserLevel", "PasswdUpdate", "PasswdUpdatePasswd", "PasswdUpdateEmail"} {
+			if !rfStartsWithUidValid(pcb, rfFuncDecl(pcb, fn)) {
+				all = false
+			}
+		}
+		lf.raw("/-- each of the six accessors starts with `if !uid.IsValid() { return … }` -/\n")
+		lf.raw("def passwdGuardIsUidValid : Bool := " + rfBool(all) + "\n")
+		ust := rfStruct(pt, "UserecRaw")
+		for _, f := range []string{"PasswdHash", "UserLevel", "Email"} {
+			off, ln := rfAlignedField(pt, ust, f)
+			lf.nat("pwOff"+f, off)
+			lf.nat("pwLen"+f, ln)
+		}
 		lf.write(out)
 	})
 }
